@@ -227,6 +227,9 @@ MUTANTS = [
     ("num-wrap-pow-exponent-as-u32", "C01", "R-NUM-WRAP", "KNumber::pow", "crates/runtime/src/types/number.rs",
      "                } else if let Ok(exponent) = u32::try_from(b) {\n                    I64(a.wrapping_pow(exponent))\n                } else {",
      "                } else if b != i64::MAX {\n                    I64(a.wrapping_pow(b as u32))\n                } else {"),
+    ("catch-last-no-rethrow", "C04", "R-CATCH-LAST", "compile_try_expression", "crates/bytecode/src/compiler.rs",
+     "            if rethrow_if_unmatched {\n                // None of the catch blocks accepted the caught value, so throw it again\n                self.push_span(ctx.node_with_span(catch_block.arg), ctx.ast);\n                self.push_op(Throw, &[catch_register]);\n                self.pop_span();\n            }\n",
+     ""),
 ]
 
 
